@@ -93,7 +93,7 @@ fn k2_handle_response_immutable() {
         transaction_id: 0,
         version: None,
         requester_ip: None,
-        read_only: kani::any(),
+        read_only: false,
         message_type: MessageType::Response(ResponseSpecific::GetImmutable(GetImmutableResponseArguments {
             responder_id: Id::from([9u8; 20]),
             token: Box::new([1, 2, 3, 4]),
